@@ -9,10 +9,12 @@ _cache = {}
 
 
 class HarnessModel:
-    def __init__(self, ws, lib_facts, tier):
-        self.h = hmod.Harness(ws, lib_facts, tier)
+    def __init__(self, ws, lib_facts, tier, profile="dev"):
+        self.h = hmod.Harness(ws, lib_facts, tier, profile=profile)
         self.h.run()
         self.facts = self.h.facts
+        if profile != "dev":
+            self.facts.target = "%s@%s" % (self.facts.target.split("@")[0], profile)
         self.tm = TargetModel(self.facts)
         self.stop = {p for p in self.facts.fns if p.startswith("m::")}
         self.lints = self.h.lint_meta_variable_misuse()
@@ -31,9 +33,11 @@ class HarnessModel:
 
 
 def get(ws, lib_facts, tier):
-    key = (id(ws), tier)
+    """The harness compiled the way `lib_facts` was: `<triple>@release` facts get the harness without debug assertions."""
+    profile = lib_facts.target.split("@", 1)[1] if "@" in lib_facts.target else "dev"
+    key = (id(ws), tier, profile)
     if key not in _cache:
-        _cache[key] = HarnessModel(ws, lib_facts, tier)
+        _cache[key] = HarnessModel(ws, lib_facts, tier, profile)
     return _cache[key]
 
 
